@@ -130,10 +130,11 @@ impl Scope for RotBucket {
         let resp = if req.is_list() {
             let prefix = req.q("prefix").unwrap_or("").to_string();
             let max_keys = req.q("max-keys").and_then(|m| m.parse::<usize>().ok());
-            let vol = prefix.split('/').nth(1).and_then(|v| v.parse::<usize>().ok());
-            let empty: Vec<Obj> = Vec::new();
-            let objs = vol.and_then(|v| self.vols.get(&v)).unwrap_or(&empty);
-            let (sel, truncated, limit) = s3sim::select(objs, &prefix, max_keys);
+            // S3 semantics: `prefix` is a plain string prefix over the whole bucket in key order
+            // ("SITE/6" also matches "SITE/60/..."), never a directory lookup
+            let mut all: Vec<Obj> = self.vols.values().flatten().cloned().collect();
+            all.sort_by(|a, b| a.key.as_bytes().cmp(b.key.as_bytes()));
+            let (sel, truncated, limit) = s3sim::select(&all, &prefix, max_keys);
             Resp::xml(s3sim::list_xml(&req.bucket, &prefix, &sel, truncated, limit, req.n % 2 == 0))
         } else {
             Resp::status(404)
